@@ -16,6 +16,7 @@ import (
 
 	"github.com/bio-routing/bio-rd/route"
 
+	"verifharness/internal/batch"
 	"verifharness/internal/gen"
 	"verifharness/internal/rig"
 	"verifharness/internal/vf"
@@ -350,10 +351,15 @@ func genEqualCase(rng *rand.Rand) c12case {
 }
 
 func main() {
+	if batch.IsChild() { // server half (server.go): its cases run in child processes
+		batch.ChildMain(runServerCase)
+		return
+	}
 	vf.Main("C12", "exploration", func(r *vf.Run) {
-		r.Rule("PRNG (old chain, new chain(s), route set) triples over 8 adversarial prefixes from the policy grammar (prefix lists, route filters exact/orlonger/longer/range, protocol conditions, accept, reject, set LOCAL_PREF / MED / next hop, AS-path prepend): 70% of the new chains differ from their predecessor in one small way (one action value, one next hop, one route-filter bound/matcher/pattern, one prefix-list entry, protocol, order of two terms, accept<->reject), the rest are unrelated chains or accept-all/reject-all; 25% of the cases replace two or three times. Import side: an Adj-RIB-In of an eBGP / iBGP / RR-client neighbour with up to 8 routes (some hidden for an AS loop), a second neighbour and static routes in the same Loc-RIB. Export side: Loc-RIB with BGP paths from four neighbours and static routes, one Adj-RIB-Out from {eBGP, RS client, iBGP, RR client} x {best only, add-path 2/4} x roles. Third kind: Chain.Equal against bio-rd's own evaluation of both chains on the route set. distinct_nontrivial = cases in which the final chain really changes the result (the table before the replacement differs from the freshly built one)")
-		r.Assume("table level only: BGPServer.ReplaceImportFilterChain/ReplaceExportFilterChain over live sessions is not driven here (needs the session speaker harness); its skip decision is judged through filter.Chain.Equal directly",
-			"paths are compared per prefix as sets (order is C02's business); add-path identifiers are left out on the export side")
+		r.Rule("PRNG (old chain, new chain(s), route set) triples over 8 adversarial prefixes from the policy grammar (prefix lists, route filters exact/orlonger/longer/range, protocol conditions, accept, reject, set LOCAL_PREF / MED / next hop, AS-path prepend): 70% of the new chains differ from their predecessor in one small way (one action value, one next hop, one route-filter bound/matcher/pattern, one prefix-list entry, protocol, order of two terms, accept<->reject), the rest are unrelated chains or accept-all/reject-all; 25% of the cases replace two or three times. Import side: an Adj-RIB-In of an eBGP / iBGP / RR-client neighbour with up to 8 routes (some hidden for an AS loop), a second neighbour and static routes in the same Loc-RIB. Export side: Loc-RIB with BGP paths from four neighbours and static routes, one Adj-RIB-Out from {eBGP, RS client, iBGP, RR client} x {best only, add-path 2/4} x roles. Third kind: Chain.Equal against bio-rd's own evaluation of both chains on the route set. distinct_nontrivial = cases in which the final chain really changes the result (the table before the replacement differs from the freshly built one). " + srvRule)
+		r.Assume("kinds import/export/equal work on the tables directly; kind server drives BGPServer.ReplaceImportFilterChain/ReplaceExportFilterChain over live sessions (IPv4 unicast, best path only; synchronisation points of internal/speaker)",
+			"paths are compared per prefix as sets (order is C02's business); add-path identifiers are left out on the export side",
+			"server kind, UPDATEs sent: the update sender writes on a 5 ms ticker; a difference between the two systems' streams counts when it is still there after 3 s")
 		_, replay := r.Replaying()
 		hg = rig.NewHangGuard(replay)
 		var mu sync.Mutex
@@ -386,6 +392,10 @@ func main() {
 			}
 		}
 		if raw, ok := r.Replaying(); ok {
+			if isServerCase(raw) {
+				driveServer(r, []any{raw})
+				return
+			}
 			var c c12case
 			vf.Decode(raw, &c)
 			report(c, 0)
@@ -405,8 +415,8 @@ func main() {
 		})
 		r.Set("cases_by_kind_and_session", byKind)
 		r.Set("chain_changes_by_kind", byChange)
-		r.Set("server_half", "not run: needs the session speaker harness (BGPServer.ReplaceImportFilterChain / ReplaceExportFilterChain over live sessions)")
 		r.Require("cases_where_the_new_chain_changes_the_result", 500)
+		driveServer(r, genServerCases(r))
 	})
 }
 
